@@ -27,12 +27,17 @@ def _escapes(f) -> bool:
     return any(d for d in f.decorators)
 
 
-def module_state(ctx, rule: str) -> None:
+def module_state(ctx, rule: str, scope=None) -> None:
+    """scope: the functions looked at (qualified names); default: everything reachable from the processing entry
+    points."""
     fx = effects(ctx)
     p = ctx.project
-    reach = processing_path(fx)
-    ctx.tables['processing_path_functions'] = len(reach)
-    ctx.floor(rule, 'functions reachable from run()/CeiloChunk', len(reach), 40)
+    if scope is None:
+        reach = processing_path(fx)
+        ctx.tables['processing_path_functions'] = len(reach)
+        ctx.floor(rule, 'functions reachable from run()/CeiloChunk', len(reach), 40)
+    else:
+        reach = set(scope)
     # writers of any module-level / class-level / function-level object, package wide
     written = {}
     for q in fx.summ:
